@@ -26,7 +26,7 @@ pub static DEF: PropDef = PropDef {
     case_budget_s: |t| t.pick(600, 7200),
     min_conclusive: |_| 4,
     run_case,
-    finish: None,
+    finish: Some(miri_step),
     worker_threads: 1,
     tokio_per_case: false,
 };
@@ -492,4 +492,78 @@ fn run_case<'a>(ctx: &'a Ctx, case: u64, acc: &'a mut Acc) -> CaseFut<'a> {
         }
         drop(rt);
     })
+}
+
+/// the random sequences of this property replayed by the Miri crate (/verif/miri): returns (sequences, grants,
+/// first violation)
+pub fn miri_replay(seed: u64, count: usize) -> (usize, usize, Option<String>) {
+    use rand::SeedableRng;
+    let mut rng = rand::rngs::StdRng::seed_from_u64(seed);
+    let rt = tokio::runtime::Builder::new_current_thread().build().unwrap();
+    let mut grants = 0;
+    for i in 0..count {
+        let cfg = Config { peers: rng.gen_range(1..=3), rooms: rng.gen_range(1..=3), limit: rng.gen_range(1..=2), mode: Mode::Random { count: 1, len: 10 } };
+        let alpha = alphabet(cfg.peers, cfg.rooms);
+        let seq: Vec<Action> = (0..rng.gen_range(4..12)).map(|_| alpha[rng.gen_range(0..alpha.len())].clone()).collect();
+        let out = rt.block_on(run_sequence(&cfg, &seq, 3));
+        grants += out.grants.len();
+        if let Some((sig, why)) = out.violation {
+            return (i + 1, grants, Some(format!("{}: {}", sig, why)));
+        }
+    }
+    (count, grants, None)
+}
+
+/// thorough tier: the random sequences of the lock service (and the digest / key import code of C06 and C14) are
+/// replayed under Miri, the undefined-behaviour and data-race interpreter. A report is a violation; a build
+/// problem or the expiry of the allowance is recorded as inconclusive, never as a violation.
+fn miri_step(ctx: &Ctx, acc: &mut Acc) {
+    if ctx.tier != Tier::Thorough || std::env::var("DV_NO_MIRI").is_ok() {
+        return;
+    }
+    let root = std::env::var("VERIF_ROOT").unwrap_or_else(|_| "/verif".to_string());
+    let manifest = format!("{}/miri/Cargo.toml", root);
+    if !std::path::Path::new(&manifest).exists() {
+        acc.aux_reports.insert(0, json!({"miri": "crate not found", "verdict": "inconclusive"}));
+        return;
+    }
+    let start = std::time::Instant::now();
+    let out = std::process::Command::new("timeout")
+        .arg("5400")
+        .arg("cargo")
+        .arg("+nightly")
+        .arg("miri")
+        .arg("run")
+        .arg("--offline")
+        .arg("--manifest-path")
+        .arg(&manifest)
+        .arg("--")
+        .arg(ctx.seed.to_string())
+        .arg("20")
+        .env("CARGO_NET_OFFLINE", "true")
+        .output();
+    match out {
+        Err(e) => acc.aux_reports.insert(0, json!({"miri": format!("cannot run: {}", e), "verdict": "inconclusive"})),
+        Ok(o) => {
+            let stdout = String::from_utf8_lossy(&o.stdout).to_string();
+            let stderr = String::from_utf8_lossy(&o.stderr).to_string();
+            let lines: Vec<&str> = stdout.lines().filter(|l| l.starts_with("MIRI-")).collect();
+            let ub = stderr.contains("Undefined Behavior") || stderr.contains("Data race detected") || stderr.contains("error: unsupported operation");
+            if ub && !stderr.contains("unsupported operation") {
+                let first = stderr.lines().find(|l| l.contains("Undefined Behavior") || l.contains("Data race")).unwrap_or("").to_string();
+                acc.violation(
+                    "C20/undefined-behaviour-or-data-race-reported-by-miri",
+                    json!({"report": first, "stderr_tail": stderr.lines().rev().take(30).collect::<Vec<_>>().into_iter().rev().collect::<Vec<_>>()}),
+                );
+            } else if o.status.success() && !lines.is_empty() {
+                acc.count("miri_runs", 1);
+                acc.aux_reports.insert(0, json!({"miri": lines, "wall_s": start.elapsed().as_secs(), "verdict": "no report"}));
+                if lines.iter().any(|l| l.starts_with("MIRI-C20") && !l.contains("violation=None")) {
+                    acc.violation("C20/lock-service-violation-under-miri", json!({"lines": lines}));
+                }
+            } else {
+                acc.aux_reports.insert(0, json!({"miri": "did not complete", "status": o.status.to_string(), "wall_s": start.elapsed().as_secs(), "stderr_tail": stderr.lines().rev().take(5).collect::<Vec<_>>(), "verdict": "inconclusive"}));
+            }
+        }
+    }
 }
